@@ -245,7 +245,7 @@ def run_ob(ob, workdir, keep=False):
             if rc != 0:
                 raise Undecided('goto-instrument failed: ' + (err + out)[-3000:])
             cur = gi
-        cmd = ['cbmc', cur, '--json-ui', '--trace', '--drop-unused-functions']
+        cmd = ['cbmc', cur, '--json-ui', '--drop-unused-functions']      # no --trace on the first run: the canary's trace alone can be 100 MB
         if ob.checks:
             cmd += ['--bounds-check', '--pointer-check', '--div-by-zero-check', '--pointer-overflow-check', '--signed-overflow-check']
         if ob.unwind is not None:
@@ -291,6 +291,15 @@ def run_ob(ob, workdir, keep=False):
                                    values=trace_values(r.get('trace'))))
             elif r['status'] != 'SUCCESS':
                 unknown.append(r.get('property'))
+        if failed and '--trace' not in cmd:
+            # a real failure: run again with --trace to get the counterexample's values for the replay file
+            rc2, out2, err2, dt2 = sh(cmd + ['--trace'], timeout=ob.timeout)
+            r2, _ = parse_cbmc_json(out2) if rc2 != -9 else (None, None)
+            if r2:
+                open(os.path.join(d, 'cbmc.json'), 'w').write(out2)
+                vals = {r_.get('property'): trace_values(r_.get('trace')) for r_ in r2 if r_.get('status') == 'FAILURE'}
+                for f_ in failed:
+                    f_['values'] = vals.get(f_['property'], {})
         res['canaries'] = canaries
         res['properties'] = len(results) - canaries
         if ob.loops and not any('loop invariant' in (r.get('description', '').lower()) for r in results):
@@ -311,6 +320,10 @@ def run_ob(ob, workdir, keep=False):
         res['status'], res['reason'] = 'undecided', str(e)
     res['wall_s'] = round(time.time() - t0, 2)
     res['dir'] = d
+    if res['status'] == 'pass' and not keep and os.environ.get('IPR_KEEP', '') != '1':      # keep the sources and commands, drop the bulky binaries of discharged obligations
+        for f_ in ('ob.gb', 'ob2.gb', 'cbmc.json'):
+            try: os.remove(os.path.join(d, f_))
+            except OSError: pass
     return res
 
 
